@@ -1,4 +1,5 @@
 import Bclv.Model.Api
+import Bclv.Verifier
 /-!
 # Line-protocol driver: one operation per input line, one result line per operation.
 All payloads are hexadecimal.
@@ -107,6 +108,13 @@ def runOp (words : List String) : String :=
       s!"accepted log={hexOrDash (c.log ++ vm.log.reverse.flatten)} err={e} out={hexOrDash (outBytes vm.out)} blocks={"+".intercalate (vm.result.map fmtBlock)} binding={fmtBinding vm.binding}"
     | .panic _ => "panic"
     | .timeout _ => "timeout"
+  | ["WF", hex] =>
+    match load (fromHex hex) with
+    | .ok p => (match verify p with
+        | some v => s!"ok {v.maxDepth} {v.maxBlocks} {v.instrs}"
+        | none => "reject")
+    | .err m => "loaderr " ++ m
+    | .panic => "loadpanic"
   | ["LOAD", hex] =>
     match load (fromHex hex) with
     | .ok p => "ok " ++ fmtProg p
